@@ -70,6 +70,7 @@ class Cfg(object):
         self.ids_flat = 8  # 1 in n specs uses the same ID strings for objects of different kinds
         self.multi_parent = 0  # 1 in n nested "free" specs gives some component a second parent
         self.org_tree = 0  # 1 in n specs sets parent_team / parent_workplace links
+        self.extend_style = 6  # 1 in n specs is wired through the extend_* helpers instead of append_*
         for k, v in kw.items():
             if not hasattr(self, k):
                 raise AttributeError(k)
@@ -337,6 +338,8 @@ def model_spec(draw, cfg):
         share_skills_by_name(spec)
     if _one_in(draw, cfg.ids_flat):
         spec["ids"] = "flat"
+    if _one_in(draw, cfg.extend_style):
+        spec["extend"] = True
     if _one_in(draw, cfg.org_tree):
         for k, tm in enumerate(teams):
             if n_teams > 1 and draw(st.booleans()):
